@@ -61,7 +61,7 @@ def floors(tier):
     return {"A:runs": 300 * k, "A:rows_compared": 8000 * k, "A:csv_cells_compared": 50000 * k, "A:runs_with_skipped_in_batch": 40 * k,
             "A:best_config_decided": 250 * k, "A:loaded_best_config_decided": 250 * k, "A:stats_trials_compared": 1500 * k,
             "A:resumed_with_changed_config": 30 * k, "A:trials_without_results": 20 * k,
-            "A:runs_aborted_by_failure_limit": 10 * k, "A:runs_with_nan_gaps_in_the_optimised_metric": 30 * k, "A:continued_at_other_path": 60 * k, "A:best_config_per_metric_decided:mode_differs_from_first_metric": 30 * k,
+            "A:runs_aborted_by_failure_limit": 10 * k, "A:runs_with_nan_gaps_in_the_optimised_metric": 30 * k, "A:continued_at_other_path": 60 * k, "A:statistics_compared_after_continuation": 30 * k, "A:best_config_per_metric_decided:mode_differs_from_first_metric": 30 * k,
             "B:histories": 2000 * k, "B:histories_with_nan": 200 * k, "B:histories_with_ties": 100 * k, "B:stats_compared": 8000 * k,
             "B:best_decided": 1500 * k, "B:best_decided_with_non_numeric_reports": 60 * k}
 
@@ -443,6 +443,40 @@ def run_part_a(spec, o):
                     o.violate("read_back", "A:results_file_missing_after_continuation", {"path": path2})
                 elif len(pd.read_csv(path2)) != len(rows2):
                     o.violate("read_back", "A:csv_row_count_differs_after_continuation", {"csv": len(pd.read_csv(path2)), "rows": len(rows2)})
+            # statistics and best configuration of the continued experiment cover everything handed to the loop, in both parts
+            handed2, ended = [], False
+            for idx, k, pl in r.rec.events:
+                if k == "c.tuning_start":
+                    ended = False
+                elif k == "c.tuning_end":
+                    ended = True
+                elif k == "b.fetch_status_results.ret" and not ended:
+                    handed2.extend((t, res) for t, res in pl["ret"]["results"])
+            st2 = r.tuner.tuning_status
+            if st2 is not None and len(handed2) > len(handed_all):
+                o.count("A:statistics_compared_after_continuation")
+                per = {}
+                for t, res in handed2:
+                    for k2, v in res.items():
+                        per.setdefault(k2, []).append(v)
+                per = {k2: v for k2, v in per.items() if len(v) == len(handed2)}
+                cmp_stats(o, "A:overall_after_continuation", st2.overall_metric_statistics, per, len(handed2))
+                vals2 = [(t, res["loss"]) for t, res in handed2 if "loss" in res and _isnum(res["loss"]) and not _isnan(float(res["loss"]))]
+                if vals2 and not isinstance(modes, list):
+                    opt2 = min(v for _, v in vals2) if mode == "min" else max(v for _, v in vals2)
+                    best2 = {t for t, v in vals2 if v == opt2}
+                    try:
+                        import contextlib
+                        import io
+
+                        with contextlib.redirect_stdout(io.StringIO()):
+                            bt2, _bc2 = r.tuner.best_config()
+                        if bt2 not in best2:
+                            o.violate("best_configuration", f"A:tuner_best_config_after_continuation_is_not_an_optimal_trial:{mode}",
+                                      {"got": bt2, "optimal": sorted(best2), "optimum": opt2, "optimum_in_first_part": all(
+                                          not (v == opt2) for _t, v in vals2[len(handed_all):])})
+                    except Exception as e:  # noqa: BLE001
+                        o.violate("best_configuration", f"A:tuner_best_config_raised_after_continuation:{type(e).__name__}", {"error": repr(e)[:300]})
         import shutil
 
         shutil.rmtree(str(r.tuner.tuner_path), ignore_errors=True)
